@@ -19,7 +19,11 @@
 //    path must succeed (`assign-refused`; "values of all lengths", lengths 247..258 drawn densely). A third of the v-table
 //    assignments on the global store hands in a number: refused there, and a refusal must change nothing, including the existence
 //    answers (type-0 query) of every touched path, model key and prefix (`refused-assign-changed-existence`); an accepted number
-//    must read back as that number. Two thirds of the views are opened from a path descriptor with off > 0 (remainder of a longer
+//    must read back as that number. Every path that is read back is also asked in the other documented forms (typed with and
+//    without target address for 's', char vector, 'd', 'i', 'y'; untyped = existence): with/without address must agree, a value
+//    implies existence. Call forms of mpt_config_set derived from the drawn path: separator 0 (the string is one element) for
+//    single-element paths, an assignment character with a tail behind it, mpt_config_environ with a one-entry environment;
+//    queries with separator 0. Two thirds of the views are opened from a path descriptor with off > 0 (remainder of a longer
 //    path after mpt_path_next). Path walk == std::string split at the separator; rebuilt path == original string.
 #include "vp.hpp"
 
@@ -263,6 +267,7 @@ static bool readKey(Ctx &c, Store &s, const Key &k, unsigned route, std::string 
   switch (route % 4) {
     case 0: default:
       how = "mpt_config_getp";
+      if (k.size() == 1 && (ps.size() + route) % 2 == 0) { setPath(p, ps, 0); how = "mpt_config_getp (separator 0)"; }
       r = mpt_config_getp(s.global && (route & 4) ? 0 : s.cfg, p, 's', &text);
       break;
     case 1:
@@ -317,6 +322,36 @@ static bool readKey(Ctx &c, Store &s, const Key &k, unsigned route, std::string 
   return true;
 }
 
+// Every documented form of the query for one path: typed with a target address, typed without one ("is a value of that
+// type there", the address is an optional parameter), and untyped (type 0: "is the element there"). The answers with and
+// without address must agree, and a value can only be there when the element is. No draws.
+static void queryForms(Ctx &c, Store &s, const Key &k, unsigned salt, const char *after) {
+  char sep = sepPlain(k);
+  if (!sep) return;
+  std::string ps = join(k, sep);
+  CObj<path> p;
+  setPath(p, ps, sep);
+  SlackGuard guard(s.rootraw);
+  static const int kTypes[] = {'s', 0 /* char vector */, 'd', 'i', 'y'};
+  int ex0 = mpt_config_getp(s.cfg, p, 0, 0);
+  char dummy[64];
+  int ex1 = mpt_config_getp(s.cfg, p, 0, dummy);
+  VP_CHECK(c, (ex0 >= 0) == (ex1 >= 0), "query-address-verdict", "after %s: existence query for %s answers %d without and %d with a target address", after, show(k).c_str(), ex0, ex1);
+  bool any = false;
+  for (unsigned i = 0; i < 2; i++) {
+    int type = kTypes[(salt + i * 2) % 5];
+    if (!type) type = MPT_type_toVector('c');
+    union { const char *s; struct iovec v; double d; int32_t i; uint8_t y; char raw[64]; } buf;
+    memset(&buf, 0, sizeof buf);
+    int with = mpt_config_getp(s.cfg, p, (type_t)type, &buf);
+    int without = mpt_config_getp(s.cfg, p, (type_t)type, 0);
+    VP_CHECK(c, (with >= 0) == (without >= 0), "query-address-verdict", "after %s: query for %s as type %d answers %d with a target address and %d without one", after, show(k).c_str(), type, with, without);
+    if (with >= 0) any = true;
+  }
+  VP_CHECK(c, !any || ex0 >= 0, "query-existence", "after %s: %s has a value but the query for its existence answers %d", after, show(k).c_str(), ex0);
+  c.label("query:all-forms");
+}
+
 static void verify(Ctx &c, Store &s, const char *after) {
   unsigned route = (unsigned)c.pick(8);
   size_t checked = 0;
@@ -328,6 +363,7 @@ static void verify(Ctx &c, Store &s, const char *after) {
     VP_CHECK(c, have, "value-lost", "after %s: %s reads as absent through %s, the model holds a value of %zu bytes", after, show(kv.first).c_str(), how.c_str(), kv.second.size());
     VP_CHECK(c, got == kv.second, "value-wrong", "after %s: %s reads '%s' (%zu bytes) through %s, most recent assignment was '%s' (%zu bytes)", after, show(kv.first).c_str(), brief(got).c_str(), got.size(), how.c_str(),
              brief(kv.second).c_str(), kv.second.size());
+    queryForms(c, s, kv.first, route + (unsigned)checked, after);
   }
   // paths without a value: touched earlier, or a proper prefix of a key
   std::set<Key> absent;
@@ -340,6 +376,7 @@ static void verify(Ctx &c, Store &s, const char *after) {
     if (how[0] == 's') continue;
     ++checked;
     VP_CHECK(c, !have, "value-ghost", "after %s: %s reads '%s' through %s, but no value is assigned to that path", after, show(k).c_str(), brief(got).c_str(), how.c_str());
+    queryForms(c, s, k, route + (unsigned)checked, after);
   }
   if (s.armed && checked > 1) { c.nontrivial(); s.armed = false; }
 }
@@ -394,6 +431,22 @@ static void step(Ctx &c, Store &s, std::vector<Key> &pool) {
     }
   }
   s.touched.insert(k);
+  // forms of the mpt_config_set call (derived from the path drawn, no draws of their own):
+  //  * separator 0 = "the string is one element" whenever the (relative) path is a single element, whatever it holds
+  //    ("a.b", "."): split at exactly the separator given, none for 0
+  //  * an assignment character: the path ends in front of it, the rest of the string is not path
+  //  * mpt_config_environ with a one-entry environment "path=value" (names are lower-cased there: only for paths
+  //    without capitals), pattern "*", the same separator (0 stands for '_' there: single elements only)
+  int callsep = usesep, endch = 0;
+  std::string callstr = pstr;
+  bool single = split(pstr, usesep).size() == 1;
+  bool viaEnviron = false;
+  if (via != 1) {
+    if (single && (ps.size() + via) % 2 == 0) { callsep = 0; c.label("call:separator-0"); }
+    else if ((ps.size() + k.size()) % 5 == 0) { callstr += "=x.y/z:w"; endch = '='; c.label("call:assign-character"); }
+    if (op == 0 && via == 0 && !endch && ps.size() % 4 == 3 && ps.size() < 1000 && std::none_of(ps.begin(), ps.end(), [](char ch) { return ch >= 'A' && ch <= 'Z'; }))
+      viaEnviron = true;
+  }
   if (op == 0) {
     std::string v = drawValue(c, s.valmax);
     const char *vp = v.c_str();
@@ -470,8 +523,16 @@ static void step(Ctx &c, Store &s, std::vector<Key> &pool) {
       }
     } else {
     if (via == 1) r = cvt(target)->assign(target, usep, val);
-    else r = mpt_config_set(via == 2 ? 0 : target, pstr.c_str(), vp, usesep, 0);
-    c.logf("  assign %s = '%s'[%zu] via %s (sep '%c') -> %d", show(k).c_str(), brief(v).c_str(), v.size(), route, sep, r);
+    else if (viaEnviron) {
+      std::string var = callstr + "=" + v;
+      char *env[2] = {&var[0], 0};
+      r = mpt_config_environ(target, "*", callsep, env);
+      route = "mpt_config_environ";
+      c.label("call:environ");
+      VP_CHECK(c, r == 1 || r < 0, "assign-refused", "mpt_config_environ accepted %d of 1 variables", r);
+    }
+    else r = mpt_config_set(via == 2 ? 0 : target, callstr.c_str(), vp, callsep, endch);
+    c.logf("  assign %s = '%s'[%zu] via %s (sep %d%s) -> %d", show(k).c_str(), brief(v).c_str(), v.size(), route, callsep, endch ? ", assign '='" : "", r);
     // "values of all lengths": a plain text to a well-formed path is what the store is for; on the unchanged tree no such
     // assignment is ever refused (0 of > 120 000 per quick run), so a refusal is not the tolerated kind of DESIGN sect. 4
     VP_CHECK(c, r >= 0, "assign-refused", "assignment of a text value of %zu bytes to %s via %s was refused (%d)", v.size(), show(k).c_str(), route, r);
@@ -486,8 +547,8 @@ static void step(Ctx &c, Store &s, std::vector<Key> &pool) {
     for (auto &kv : s.model) if (hasPrefix(kv.first, k)) ++below;
     int r;
     if (via == 1) r = cvt(target)->remove(target, usep);
-    else r = mpt_config_set(via == 2 ? 0 : target, pstr.c_str(), 0, usesep, 0);
-    c.logf("  remove %s via %s (sep '%c') -> %d   (%zu values at or below)", show(k).c_str(), route, sep, r, below);
+    else r = mpt_config_set(via == 2 ? 0 : target, callstr.c_str(), 0, callsep, endch);
+    c.logf("  remove %s via %s (sep %d%s) -> %d   (%zu values at or below)", show(k).c_str(), route, callsep, endch ? ", assign '='" : "", r, below);
     for (auto it = s.model.begin(); it != s.model.end();) { if (hasPrefix(it->first, k)) it = s.model.erase(it); else ++it; }
     for (auto it = s.nontext.begin(); it != s.nontext.end();) { if (hasPrefix(*it, k)) it = s.nontext.erase(it); else ++it; }
     // "removing a path removes it": the element itself is gone, also for a query that only asks whether it is there
